@@ -7,6 +7,7 @@ itself is vlib.models.uri.ref_parse_qs (shared with C10's codec).
 
 import json
 import uuid
+from decimal import Decimal
 from datetime import datetime
 
 from vlib.models.uri import HEXS, ref_decode, ref_parse_qs  # noqa: F401  (re-exported)
@@ -189,7 +190,7 @@ def _bounds(v, lo, hi):
     return [Outcome('return', v, True, tag)]
 
 
-def convert(kind, s, op):
+def convert(kind, s, op, json_loads=json.loads):
     """Reference conversion of one textual value -> list of acceptable outcomes."""
     bad = [Outcome('raise400', tag='invalid')]
     if kind == 'str':
@@ -228,7 +229,7 @@ def convert(kind, s, op):
         return [Outcome('return', v if kind == 'datetime' else v.date(), True, 'ok')]
     if kind == 'json':
         try:
-            return [Outcome('return', json.loads(s), True, 'ok')]
+            return [Outcome('return', json_loads(s), True, 'ok')]
         except ValueError:
             return bad
         except RecursionError:
@@ -237,7 +238,7 @@ def convert(kind, s, op):
     raise AssertionError(kind)
 
 
-def ref_getter(ref_params, ambiguous, op):
+def ref_getter(ref_params, ambiguous, op, json_loads=json.loads):
     """Acceptable outcomes of one getter call `op` on the reference mapping.
 
     op: {'g': kind, 'name': str, 'required': bool, 'default': obj, 'min','max','blank_as_true',
@@ -260,7 +261,23 @@ def ref_getter(ref_params, ambiguous, op):
             return [Outcome('return', [tr(e) for e in vals], True, 'list-transformed')]
         except ValueError:
             return [Outcome('raise400', tag='invalid')]
-    return convert(kind, vals[-1], op)
+    return convert(kind, vals[-1], op, json_loads)
+
+
+# The documentation (docs/api/media.rst, note on the JSON handler) says that get_param_as_json converts with
+# the JSON handler configured in the request options.  Two conversions that differ observably from json.loads:
+
+def _no_constant(name):
+    raise ValueError('JSON constant %s is not accepted' % name)
+
+
+def strict_decimal_loads(s):
+    """Floats become Decimal, NaN/Infinity are refused."""
+    return json.loads(s, parse_float=Decimal, parse_constant=_no_constant)
+
+
+def tagged_loads(s):
+    return {'via': 'custom-handler', 'value': json.loads(s)}
 
 
 def same(a, b):
